@@ -24,6 +24,14 @@ class AnalysisError(Exception):
     """The analyser cannot do its job (anchor vanished, unknown idiom at a decided site...)."""
 
 
+def before(a, b):
+    """a stands before b in the text of the (lowered) program: by pre-order rank when both nodes carry one, by line otherwise"""
+    oa, ob = getattr(a, '_ord', None), getattr(b, '_ord', None)
+    if oa is not None and ob is not None:
+        return oa < ob
+    return a.lineno < b.lineno
+
+
 class External(object):
     """A name that resolves outside the analysed package (stdlib, antlr4...)."""
 
@@ -209,6 +217,16 @@ class Index(object):
             self.lowering = lower.lower_package({n: v[3] for n, v in parsed.items()})
         else:
             self.lowering = None
+        # textual order of the program the rules see: every node gets its pre-order rank (`_ord`).  Line numbers cannot say which of two
+        # statements comes first once a helper has been inlined (every inlined statement carries the line of the call): see `before()`
+        for name, (path, rel, src, tree) in parsed.items():
+            k = 0
+            stack = [tree]
+            while stack:
+                n = stack.pop()
+                n._ord = k
+                k += 1
+                stack.extend(reversed(list(ast.iter_child_nodes(n))))
         for name, (path, rel, src, tree) in parsed.items():
             self.modules[name] = Module(name, path, rel, src, tree)
 
